@@ -351,3 +351,66 @@ package core
 //@   before call:Unlock#1 assert unchanged("call:Lock#1", d.reconnTime, d.reconnMaxTime, d.asynch)
 //@   before call:Unlock#2 assert unchanged("call:Lock#2", d.reconnTime, d.reconnMinTime, d.asynch)
 //@   before call:Unlock#3 assert unchanged("call:Lock#3", d.reconnTime, d.reconnMinTime, d.reconnMaxTime)
+
+// ---- round 12: address helpers, one-shot Dial/Listen, hook swap, pass-through option calls ----
+//@ func (*socket).getTransport
+//@   ghost idx = result at call:Index#1
+//@   ghost tr = result at call:GetTransport#1
+//@   before call:Index#1 assert arg0 == addr && arg1 == "://"
+//@   before call:GetTransport#1 assert idx >= 0 && len(arg0) == idx
+//@   ensures idx < 0 ==> isnil(result) && !called("GetTransport")
+//@   ensures idx >= 0 ==> result == tr
+//@
+//@ func (*socket).DialOptions
+//@   ghost nd = result0 at call:NewDialer#1
+//@   ghost e1 = result1 at call:NewDialer#1
+//@   ghost e2 = result at call:Dial#1
+//@   before call:NewDialer#1 assert arg0 == addr && arg1 == opts
+//@   before call:Dial#1 assert recv == nd && isnil(e1)
+//@   ensures !isnil(e1) ==> result == e1 && !called("Dial")
+//@   ensures isnil(e1) ==> called("Dial") && result == e2
+//@
+//@ func (*socket).ListenOptions
+//@   ghost nl = result0 at call:NewListener#1
+//@   ghost e1 = result1 at call:NewListener#1
+//@   ghost e2 = result at call:Listen#1
+//@   before call:NewListener#1 assert arg0 == addr && arg1 == options
+//@   before call:Listen#1 assert recv == nl && isnil(e1)
+//@   ensures !isnil(e1) ==> result == e1 && !called("Listen")
+//@   ensures isnil(e1) ==> called("Listen") && result == e2
+//@
+//@ func (*socket).Dial
+//@   ghost e = result at call:DialOptions#1
+//@   before call:DialOptions#1 assert arg0 == addr && isnil(arg1)
+//@   ensures result == e
+//@
+//@ func (*socket).Listen
+//@   ghost e = result at call:ListenOptions#1
+//@   before call:ListenOptions#1 assert arg0 == addr && isnil(arg1)
+//@   ensures result == e
+//@
+//@ func (*socket).SetPipeEventHook
+//@   ghost was = s.pipehook at call:Lock#1
+//@   ensures result == was && s.pipehook == newhook && !held(s.Mutex)
+//@
+//@ func (*listener).GetOption
+//@   ghost v = result0 at call:GetOption#1
+//@   ghost e = result1 at call:GetOption#1
+//@   before call:GetOption#1 assert recv == l.l && arg0 == n
+//@   ensures result0 == v && result1 == e
+//@
+//@ func (*listener).SetOption
+//@   ghost e = result at call:SetOption#1
+//@   before call:SetOption#1 assert recv == l.l && arg0 == n && arg1 == v
+//@   ensures result == e
+//@
+//@ func (*listener).Address
+//@   ghost a = result at call:Address#1
+//@   before call:Address#1 assert recv == l.l
+//@   ensures result == a
+//@
+//@ func (*dialer).Address
+//@   ensures result == d.addr
+//@
+//@ func (*dialer).redial
+//@   before call:dial#1 assert arg0
